@@ -58,6 +58,21 @@ def case_strategy(draw):
     op = draw(st.sampled_from(["extend", "extend", "merge", "timestamps", "timestamps", "grouped", "replace",
                                "init_from", "rewriter", "grouped-replace"]))
     recs = [draw(small_record()) for _ in range(draw(st.integers(1, 4)))]
+    if op in ("extend", "merge", "grouped") and len(recs) >= 2 and draw(st.integers(0, 2)) == 0:
+        # the same record type occurs more than once in the list (equal descriptor, other values), with records of
+        # other types in between: every occurrence counts, in its position
+        j = draw(st.integers(0, len(recs) - 2))
+        twin = dict(recs[j])
+        twin["vals"] = [draw(value_of(t)) for t, _ in twin["desc"][1]]
+        recs.insert(draw(st.integers(j + 2, len(recs))), twin)
+    fields_override = None
+    if op == "rewriter" and draw(st.integers(0, 2)) == 0 and recs[0]["desc"][1]:
+        # a projection that names EVERY field of the record (nothing is dropped) in an order of its own, possibly with
+        # names the record does not have in between: the order asked for is the order of the result
+        own = [n for _, n in recs[0]["desc"][1]]
+        fields_override = list(draw(st.permutations(own)))
+        if draw(st.booleans()):
+            fields_override.insert(draw(st.integers(0, len(fields_override))), "nope")
     if op == "timestamps" and draw(st.integers(0, 3)) == 0:
         # a record that already LOOKS expanded (first fields 'datetime ts', 'string ts_description', free text in it)
         # is a record like any other: one output per datetime field, described by the field's name
@@ -71,8 +86,10 @@ def case_strategy(draw):
         "recs": recs,
         "replace": draw(st.booleans()),
         "rename": draw(st.sampled_from([None, None, "new/name"])),
-        "fields": draw(st.lists(st.sampled_from(NAMES + ["nope"]), max_size=4, unique=True)),
-        "exclude": draw(st.lists(st.sampled_from(NAMES + ["nope"]), max_size=2, unique=True)),
+        "fields": fields_override if fields_override is not None else
+        draw(st.lists(st.sampled_from(NAMES + ["nope"]), max_size=4, unique=True)),
+        "exclude": [] if fields_override is not None and draw(st.booleans()) else
+        draw(st.lists(st.sampled_from(NAMES + ["nope"]), max_size=2, unique=True)),
         "nested_group": draw(st.booleans()),
         "raise_unknown": draw(st.booleans()),
         "newvals": {n: draw(value_of("string")) for n in draw(st.lists(st.sampled_from(NAMES), max_size=2, unique=True))},
